@@ -1,3 +1,378 @@
 package rules
 
-func runMutant(args []string) int { return 2 }
+import (
+	"encoding/json"
+	"fmt"
+	"os"
+	"os/exec"
+	"path/filepath"
+	"regexp"
+	"sort"
+	"strings"
+	"sync"
+
+	"canvascheck/internal/core"
+)
+
+// Checker self-validation (thorough tier): every mutant below is derived from the CURRENT source
+// by a pattern (never by position), supplied to the loader through an Overlay (nothing is
+// written to /repo), and must make the named rule fire. A mutant whose pattern no longer
+// matches exactly once, or that no longer type-checks, is reported as stale, not as killed.
+
+type Mutant struct {
+	Name   string
+	File   string // relative to the repository
+	From   string // regular expression, must match exactly once
+	To     string
+	Expect string // substring of the rule id that must report
+}
+
+var Mutants = map[string][]Mutant{
+	"C01": {
+		{"disjoint-P shortcut forgets NOT", "path_intersection.go", `op == opOR \|\| op == opXOR \|\| op == opNOT \|\| op == opDIV`, `op == opOR || op == opXOR || op == opDIV`, "E9.shortcut"},
+		{"And membership uses ||", "path_intersection.go", `belowFills = fillRule\.Fills\(lowerWindings\) && fillRule\.Fills\(lowerOtherWindings\)`, `belowFills = fillRule.Fills(lowerWindings) || fillRule.Fills(lowerOtherWindings)`, "E9.membership"},
+		{"Path.Xor passes opOR", "path_intersection.go", `return bentleyOttmann\(p\.Split\(\), q\.Split\(\), opXOR, NonZero\)`, `return bentleyOttmann(p.Split(), q.Split(), opOR, NonZero)`, "E9.wrapper"},
+		{"empty Q returns P for And", "path_intersection.go", `if op == opAND \{\n\t\t\treturn &Path\{\}\n\t\t\}\n\t\treturn ps\.Settle\(fillRule\)`, `return ps.Settle(fillRule)`, "E9.shortcut"},
+	},
+	"C02": {
+		{"Negative rule includes zero", "path.go", `return windings < 0`, `return windings <= 0`, "E9.fills"},
+		{"EvenOdd tests == 1", "path.go", `return windings%2 != 0`, `return windings%2 == 1`, "E9.fills"},
+		{"Paths.Settle ignores its rule", "path_intersection.go", `return bentleyOttmann\(ps, nil, opSettle, fillRule\)`, `return bentleyOttmann(ps, nil, opSettle, NonZero)`, "E9.wrapper"},
+	},
+	"C03": {
+		{"quadratic flattener emits QuadTo", "path_util.go", `_, _, _, p0, p1, p2 = quadraticBezierSplit\(p0, p1, p2, t\)\n\t\tp\.LineTo\(p0\.X, p0\.Y\)`, "_, _, _, p0, p1, p2 = quadraticBezierSplit(p0, p1, p2, t)\n\t\tp.QuadTo(p1.X, p1.Y, p0.X, p0.Y)", "E10.command-set"},
+		{"replace does not restart at the remainder", "path.go", `\t\t\ti = len\(p\.d\)\n`, ``, "E10.replace-shape"},
+		{"sweep input qs not flattened", "path_intersection.go", `\t\tfor i := range qs \{\n\t\t\tqs\[i\] = qs\[i\]\.Flatten\(Tolerance\)\n\t\t\}\n`, ``, "E10.consumer"},
+		{"ToPDF forgets ReplaceArcs", "path.go", `\tp = p\.ReplaceArcs\(\)\n\n\tsb := strings\.Builder\{\}\n\tvar x, y float64\n\tfor i := 0; i < len\(p\.d\); \{\n\t\tcmd := p\.d\[i\]\n\t\tswitch cmd \{\n\t\tcase MoveToCmd:\n\t\t\tx, y = p\.d\[i\+1\], p\.d\[i\+2\]\n\t\t\tfmt\.Fprintf\(&sb, " %v %v m"`, "\tsb := strings.Builder{}\n\tvar x, y float64\n\tfor i := 0; i < len(p.d); {\n\t\tcmd := p.d[i]\n\t\tswitch cmd {\n\t\tcase MoveToCmd:\n\t\t\tx, y = p.d[i+1], p.d[i+2]\n\t\t\tfmt.Fprintf(&sb, \" %v %v m\"", "E10.consumer"},
+	},
+	"C04": {
+		{"zero-length Close leaves the sub-path open", "path_stroke.go", `(\t\tcase CloseCmd:\n\t\t\tend = Point\{p\.d\[i\+1\], p\.d\[i\+2\]\}\n)(\t\t\tif !Equal\(start\.X, end\.X\) \|\| !Equal\(start\.Y, end\.Y\) \{)`, "${1}\t\t\tif Equal(start.X, end.X) && Equal(start.Y, end.Y) {\n\t\t\t\tbreak\n\t\t\t}\n${2}", "E11.cap-join"},
+		{"Offset caps open paths", "path_stroke.go", `rhs, lhs := pi\.offset\(w, ButtCap, RoundJoin, false, tolerance\)`, `rhs, lhs := pi.offset(w, ButtCap, RoundJoin, true, tolerance)`, "E11.cap-join"},
+		{"no wrap-around join", "path_stroke.go", `if i\+1 < len\(states\) \|\| closed \{`, `if i+1 < len(states) {`, "E11.cap-join"},
+		{"closed flag also set by MoveTo", "path_stroke.go", `\t\tcase MoveToCmd:\n\t\t\tend = Point\{p\.d\[i\+1\], p\.d\[i\+2\]\}\n\t\tcase LineToCmd:\n\t\t\tend = Point\{p\.d\[i\+1\], p\.d\[i\+2\]\}\n\t\t\tn := end`, "\t\tcase MoveToCmd:\n\t\t\tend = Point{p.d[i+1], p.d[i+2]}\n\t\t\tclosed = false\n\t\tcase LineToCmd:\n\t\t\tend = Point{p.d[i+1], p.d[i+2]}\n\t\t\tn := end", "E11.cap-join"},
+	},
+	"C05": {
+		{"closedness of the whole path decides every sub-path", "path.go", `(\tq := &Path\{\}\n)(\tfor _, ps := range p\.Split\(\) \{\n\t\ti := i0\n(?s:.*?))if ps\.Closed\(\) \{`, "${1}\tclosedAll := p.Closed()\n${2}if closedAll {", "E11.dash-independent"},
+		{"dash phase carried across sub-paths", "path.go", `\tq := &Path\{\}\n\tfor _, ps := range p\.Split\(\) \{\n\t\ti := i0\n\t\tpos := pos0\n`, "\tq := &Path{}\n\ti := i0\n\tpos := pos0\n\tfor _, ps := range p.Split() {\n", "E11.dash-independent"},
+		{"arc cut relative to the arc start", "path.go", `ellipseSplit\(rx, ry, phi, cx, cy, startTheta, theta2, theta\)`, `ellipseSplit(rx, ry, phi, cx, cy, theta1, theta2, theta)`, "E11.cut-carried"},
+	},
+	"C06": {
+		{"ray hull ignores the control point", "path_intersection.go", `ymax := math\.Max\(math\.Max\(start\.Y, end\.Y\), cp\.Y\)`, `ymax := math.Max(start.Y, end.Y)`, "E3.ray-hull"},
+		{"Contains ignores the fill rule", "path.go", `\treturn fillRule\.Fills\(n\)\n`, "\treturn n != 0\n", "E9.contains"},
+		{"Windings looks at the whole path only", "path.go", `\tfor _, pi := range p\.Split\(\) \{\n\t\tzs := pi\.RayIntersections\(x, y\)`, "\tfor _, pi := range []*Path{p} {\n\t\tzs := pi.RayIntersections(x, y)", "E9.subpaths"},
+	},
+	"C07": {
+		{"sweep flip decided by the diagonal", "path.go", `_, _, _, xscale, yscale, _ := m\.Decompose\(\)`, `xscale, yscale := m[0][0], m[1][1]`, "E11.sweep-flip"},
+		{"Transform passes radians to Rotate", "path.go", `T := m\.Rotate\(phi \* 180\.0 / math\.Pi\)`, `T := m.Rotate(phi)`, "E8.units"},
+		{"Join passes radians to ArcTo", "path.go", `p\.ArcTo\(d\[1\], d\[2\], d\[3\]\*180\.0/math\.Pi, large, sweep, d\[5\], d\[6\]\)`, `p.ArcTo(d[1], d[2], d[3], large, sweep, d[5], d[6])`, "E8.units"},
+	},
+	"C08": {
+		{"FastBounds quad max uses Min", "path.go", `xmax = math\.Max\(xmax, math\.Max\(cp\.X, end\.X\)\)`, `xmax = math.Max(xmax, math.Min(cp.X, end.X))`, "E3.homogeneity"},
+		{"FastBounds cubic ymin forgets cp2", "path.go", `ymin = math\.Min\(ymin, math\.Min\(cp1\.Y, math\.Min\(cp2\.Y, end\.Y\)\)\)`, `ymin = math.Min(ymin, math.Min(cp1.Y, end.Y))`, "E3."},
+		{"Bounds thetaTop radii swapped", "path.go", `thetaTop := math\.Atan2\(ry\*cosphi, rx\*sinphi\)`, `thetaTop := math.Atan2(rx*cosphi, ry*sinphi)`, "E3.arc-extrema"},
+		{"Rect.Add max reads the low field", "util.go", `x1 := math\.Max\(r\.X1, q\.X1\)`, `x1 := math.Max(r.X1, q.X0)`, "E3.mirror"},
+	},
+	"C09": {
+		{"SplitAt reads the whole path's data", "path.go", `cp := Point\{ps\.d\[i\+1\], ps\.d\[i\+2\]\}\n\t\t\t\tend = Point\{ps\.d\[i\+3\], ps\.d\[i\+4\]\}\n\n\t\t\t\tif j == len\(ts\) \{\n\t\t\t\t\tq\.QuadTo`, "cp := Point{p.d[i+1], p.d[i+2]}\n\t\t\t\tend = Point{ps.d[i+3], ps.d[i+4]}\n\n\t\t\t\tif j == len(ts) {\n\t\t\t\t\tq.QuadTo", "E2.cursor-domain"},
+		{"Reverse ends a quad record with LineToCmd", "path.go", `q\.d = append\(q\.d, QuadToCmd, cx, cy, end\.X, end\.Y, QuadToCmd\)`, `q.d = append(q.d, QuadToCmd, cx, cy, end.X, end.Y, LineToCmd)`, "E2.record"},
+		{"quad case reads offset 5", "path.go", `\t\tcase QuadToCmd:\n\t\t\tcp := Point\{p\.d\[i\+1\], p\.d\[i\+2\]\}\n\t\t\tend = Point\{p\.d\[i\+3\], p\.d\[i\+4\]\}\n\t\t\txmin = math\.Min\(xmin, math\.Min\(cp\.X, end\.X\)\)`, "\t\tcase QuadToCmd:\n\t\t\tcp := Point{p.d[i+1], p.d[i+2]}\n\t\t\tend = Point{p.d[i+5], p.d[i+6]}\n\t\t\txmin = math.Min(xmin, math.Min(cp.X, end.X))", "E2.layout"},
+	},
+	"C10": {
+		{"replace loses its copy-on-write", "path.go", `\t\t\t\tp = p\.Copy\(\)\n\t\t\t\tcopied = true`, "\t\t\t\tcopied = true", "E1.no-mutation"},
+		{"dashCanonical edits the caller's array", "path.go", `\td = append\(\[\]float64\{\}, d\.\.\.\) // d is modified below[^\n]*\n`, ``, "E1.no-mutation"},
+		{"Split hands out growable sub-slices", "path.go", `ps = append\(ps, &Path\{p\.d\[i:j:j\]\}\)\n\t\t\ti = j`, "ps = append(ps, &Path{p.d[i:j]})\n\t\t\ti = j", "E11.split-cap"},
+		{"Grid translates the shared cell", "shapes.go", `cell\.Copy\(\)\.Translate\(x, y\)`, `cell.Translate(x, y)`, "E11.accumulate"},
+		{"Close retags one end only", "path.go", `\t\tp\.d\[len\(p\.d\)-1\] = CloseCmd\n\t\tp\.d\[len\(p\.d\)-cmdLen\(LineToCmd\)\] = CloseCmd\n`, "\t\tp.d[len(p.d)-1] = CloseCmd\n", "E2.retag"},
+	},
+	"C11": {
+		{"ParseSVGPath loses its guard", "path.go", `path\[0\] == ',' \|\| len\(path\) <= i \|\| path\[i\] < 'A'`, `path[0] == ',' || path[i] < 'A'`, "E4.index-guard"},
+		{"drawShape panics on <text> without x", "svg.go", `\tcase "text":\n\t\tsvg\.state\.textX`, "\tcase \"text\":\n\t\tif attrs[\"x\"] == \"\" {\n\t\t\tpanic(\"text without x\")\n\t\t}\n\t\tsvg.state.textX", "E4.panic-reach"},
+		{"number table larger than the buffer", "path.go", `\t\t'A': 7,\n`, "\t\t'A': 8,\n", "E4.table-bound"},
+	},
+	"C12": {
+		{"SVG fall-back dashes unscaled", "renderers/svg/svg.go", `dashOffset, dashes := canvas\.ScaleDash\(style\.StrokeWidth, style\.DashOffset, style\.Dashes\)\n\t\t\tstroke = stroke\.Dash\(dashOffset, dashes\.\.\.\)`, `stroke = stroke.Dash(style.DashOffset, style.Dashes...)`, "E6.dash-scale"},
+		{"PS round cap emits code 2", "renderers/ps/ps.go", `fmt\.Fprintf\(r\.w, " 1 setlinecap"\)`, `fmt.Fprintf(r.w, " 2 setlinecap")`, "E6.enum"},
+		{"PS fall-back outline not transformed", "renderers/ps/ps.go", `r\.w\.Write\(\[\]byte\(path\.Transform\(m\)\.ToPS\(\)\)\)`, `r.w.Write([]byte(path.ToPS()))`, "E6.transform"},
+		{"PDF fall-back width scaled twice", "renderers/pdf/pdf.go", `\tstrokeUnsupported := false\n\tif _, ok := style\.StrokeJoiner\.\(canvas\.ArcsJoiner\); ok \{`, "\tstrokeUnsupported := false\n\tif m.IsSimilarity() {\n\t\tstyle.StrokeWidth *= math.Sqrt(math.Abs(m.Det()))\n\t}\n\tif _, ok := style.StrokeJoiner.(canvas.ArcsJoiner); ok {", "E6.width-frame"},
+		{"PS eofill outside its guard", "renderers/ps/ps.go", `r\.w\.Write\(\[\]byte\(" fill"\)\)\n\t\t\}\n\t\tif style\.HasStroke\(\) && !strokeUnsupported \{\n\t\t\tr\.w\.Write\(\[\]byte\(" grestore"\)\)`, "r.w.Write([]byte(\" eofill\"))\n\t\t}\n\t\tif style.HasStroke() && !strokeUnsupported {\n\t\t\tr.w.Write([]byte(\" grestore\"))", "E6.enum"},
+	},
+	"C13": {
+		{"Subject filled from title", "renderers/pdf/writer.go", `info\["Subject"\] = encode\(w\.subject\)`, `info["Subject"] = encode(w.title)`, "E5.metadata"},
+		{"Length of the unfiltered stream", "renderers/pdf/writer.go", `v\.dict\["Length"\] = len\(b\)`, `v.dict["Length"] = len(v.stream)`, "E5.length"},
+		{"vertical fonts written as horizontal", "renderers/pdf/writer.go", `w\.writeFonts\(w\.fontsV, true\)`, `w.writeFonts(w.fontsV, false)`, "E5.fontmaps"},
+		{"text object not closed", "renderers/pdf/pdf.go", `\t\t\tr\.w\.WriteText\(text\.WritingMode, span\.Glyphs\)\n\t\t\tr\.w\.EndTextObject\(\)\n`, "\t\t\tr.w.WriteText(text.WritingMode, span.Glyphs)\n", "E5.grammar"},
+		{"graphics state name not registered", "renderers/pdf/writer.go", `gs := w\.getOpacityGS\(alpha\)`, `gs := pdfName("A0")`, "E5.resources"},
+		{"font offset recorded too early", "renderers/pdf/writer.go", `\tw\.objOffsets\[ref-1\] = w\.pos\n\tw\.write\("%v 0 obj\\n", ref\)`, "\tw.write(\"%v 0 obj\\n\", ref)\n\tw.objOffsets[ref-1] = w.pos", "E5.objoffset"},
+		{"trailer Root points at the info object", "renderers/pdf/writer.go", `"Root": pdfRef\(1\),`, `"Root": pdfRef(2),`, "E5.reserved"},
+		{"stroke keeps even-odd star", "renderers/pdf/pdf.go", `\t\t\tif closed \{\n\t\t\t\tr\.w\.Write\(\[\]byte\(" s"\)\)\n\t\t\t\} else \{\n\t\t\t\tr\.w\.Write\(\[\]byte\(" S"\)\)\n\t\t\t\}\n\t\t\} else if style\.HasFill\(\) && style\.HasStroke\(\) \{`, "\t\t\tif closed {\n\t\t\t\tr.w.Write([]byte(\" s\"))\n\t\t\t} else {\n\t\t\t\tr.w.Write([]byte(\" S\"))\n\t\t\t}\n\t\t\tif style.FillRule == canvas.EvenOdd {\n\t\t\t\tr.w.Write([]byte(\"*\"))\n\t\t\t}\n\t\t} else if style.HasFill() && style.HasStroke() {", "E5.grammar"},
+	},
+	"C14": {
+		{"rasterizer transforms the caller's path", "renderers/rasterizer/rasterizer.go", `fill = path\.Copy\(\)\.Transform\(m\)`, `fill = path.Transform(m)`, "E1.render-pure"},
+		{"gradient stops converted in place", "colors.go", `\tgradient := \*g\n\tgradient\.Stops = stops\n\treturn &gradient\n\}\n\n// At returns the color at position \(x,y\)\.\nfunc \(g \*LinearGradient\)`, "\tgradient := *g\n\tgradient.Stops = stops\n\tg.Stops[0] = stops[0]\n\treturn &gradient\n}\n\n// At returns the color at position (x,y).\nfunc (g *LinearGradient)", "E1.render-pure"},
+		{"scanner line not flipped", "path.go", `\t\tcase LineToCmd:\n\t\t\tras\.Line\(fixedPoint26_6\(p\.d\[i\+1\]\*dpmm, dy-p\.d\[i\+2\]\*dpmm\)\)`, "\t\tcase LineToCmd:\n\t\t\tras.Line(fixedPoint26_6(p.d[i+1]*dpmm, p.d[i+2]*dpmm))", "E6.scanner-site"},
+		{"rasterizer ignores the fill rule", "renderers/rasterizer/rasterizer.go", `\t\tr\.scanner\.SetWinding\(style\.FillRule != canvas\.EvenOdd\)\n`, ``, "E6.style-field"},
+	},
+	"C15": {
+		{"Rotate pre-multiplies", "canvas.go", `c\.view = c\.view\.Mul\(Identity\.Rotate\(rot\)\)`, `c.view = Identity.Rotate(rot).Mul(c.view)`, "E11.view-postmul"},
+		{"Pop restores the style only", "canvas.go", `c\.ContextState = c\.stack\[len\(c\.stack\)-1\]`, `c.Style = c.stack[len(c.stack)-1].Style`, "E11.ctx-stack"},
+		{"DrawText compensates the wrong quadrant", "canvas.go", `(\tm := c\.CoordSystemView\(\)\.Mul\(c\.view\)\.Translate\(coord\.X, coord\.Y\)\n\n\t// keep textbox origin at the top-left\n\tif c\.coordSystem == CartesianIII \|\| c\.coordSystem == )CartesianIV`, "${1}CartesianII", "E11.draw-matrix"},
+		{"Fill restores into the wrong paint", "canvas.go", `\tc\.DrawPath\(0\.0, 0\.0, c\.path\)\n\tc\.Style\.Stroke = stroke\n`, "\tc.DrawPath(0.0, 0.0, c.path)\n\tc.Style.Fill = stroke\n", "E11.ctx-restore"},
+		{"setter writes the stack", "canvas.go", `func \(c \*Context\) SetStrokeWidth\(width float64\) \{\n`, "func (c *Context) SetStrokeWidth(width float64) {\n\tc.stack = nil\n", "E11.ctx-setter"},
+	},
+	"C17": {
+		{"Linebreak looks at items[b-1] unguarded", "text/linebreak.go", `if 0 < b && lb\.items\[b-1\]\.Type == BoxType`, `if lb.items[b-1].Type == BoxType`, "E4.neighbour-guard"},
+		{"Linebreak looks at items[b+1] unguarded", "text/linebreak.go", `\(len\(lb\.items\) <= b\+1 \|\| lb\.items\[b\+1\]\.Type != PenaltyType\)`, `lb.items[b+1].Type != PenaltyType`, "E4.neighbour-guard"},
+	},
+	"C18": {
+		{"subsetter starts empty", "font.go", `IDs:   \[\]uint16\{0\}, // \.notdef should always be at zero`, `IDs:   []uint16{},`, "E11.subsetter"},
+		{"Get records the mapping before appending", "font.go", `\tsubsetGlyphID := uint16\(len\(subsetter\.IDs\)\)\n\tsubsetter\.IDs = append\(subsetter\.IDs, glyphID\)\n`, "\tsubsetter.IDs = append(subsetter.IDs, glyphID)\n\tsubsetGlyphID := uint16(len(subsetter.IDs))\n", "E11.subsetter"},
+		{"vertical fonts written as horizontal", "renderers/pdf/writer.go", `w\.writeFonts\(w\.fontsV, true\)`, `w.writeFonts(w.fontsV, false)`, "E5.fontmaps"},
+	},
+	"C19": {
+		{"pica is 1/12 inch", "svg.go", `return num \* 96\.0 / 6\.0`, `return num * 96.0 / 12.0`, "E11.svg-dimension"},
+		{"importer keeps y up", "svg.go", `svg\.ctx\.SetCoordSystem\(CartesianIV\)`, `svg.ctx.SetCoordSystem(CartesianI)`, "E11.svg-size"},
+		{"explicit width used as millimetres", "svg.go", `width = svg\.parseDimension\(attrWidth, 1\.0\) \* 25\.4 / 96\.0`, `width = svg.parseDimension(attrWidth, 1.0)`, "E11.svg-size"},
+	},
+	"C20": {
+		{"recycled node keeps its left child", "path_intersection.go", `\tn\.left = nil\n`, ``, "E7.pool-reinit"},
+		{"Flatten writes a package variable", "path.go", `func \(p \*Path\) Flatten\(tolerance float64\) \*Path \{\n`, "func (p *Path) Flatten(tolerance float64) *Path {\n\tTolerance = tolerance\n", "E7.global"},
+		{"Face tie-break removed", "font.go", `if diff < minDiff \|\| diff == minDiff && style < minStyle \{`, `if diff < minDiff {`, "E7.map-order"},
+		{"system font cache read without the lock", "font.go", `\tsystemFonts\.Lock\(\)\n\tif systemFonts\.SystemFonts == nil \{`, "\tif systemFonts.SystemFonts == nil {", "E7.global"},
+	},
+}
+
+type mutantResult struct {
+	Name    string   `json:"name"`
+	Status  string   `json:"status"` // killed | survived | stale | invalid
+	Expect  string   `json:"expect"`
+	FiredBy []string `json:"fired_by,omitempty"`
+	Detail  string   `json:"detail,omitempty"`
+}
+
+// runMutant is the sub-process entry point: canvascheck mutant <property> <index|negctl>
+func runMutant(args []string) int {
+	if len(args) != 2 {
+		return 2
+	}
+	prop, ok := Properties[args[0]]
+	if !ok {
+		return 2
+	}
+	repo := core.RepoDirFromEnv()
+	res := mutantResult{}
+	overlay := map[string][]byte{}
+	if args[1] == "negctl" {
+		res.Name, res.Expect = "negative control: locals renamed", "(silence)"
+		ov, err := renameOverlay(repo)
+		if err != nil {
+			res.Status, res.Detail = "invalid", err.Error()
+			return emit(res)
+		}
+		overlay = ov
+	} else {
+		var idx int
+		fmt.Sscanf(args[1], "%d", &idx)
+		ms := Mutants[args[0]]
+		if idx < 0 || idx >= len(ms) {
+			return 2
+		}
+		m := ms[idx]
+		res.Name, res.Expect = m.Name, m.Expect
+		path := filepath.Join(repo, m.File)
+		b, err := os.ReadFile(path)
+		if err != nil {
+			res.Status, res.Detail = "stale", err.Error()
+			return emit(res)
+		}
+		re, err := regexp.Compile(m.From)
+		if err != nil {
+			res.Status, res.Detail = "stale", err.Error()
+			return emit(res)
+		}
+		if n := len(re.FindAllIndex(b, -1)); n != 1 {
+			res.Status, res.Detail = "stale", fmt.Sprintf("pattern matches %d times in %s", n, m.File)
+			return emit(res)
+		}
+		overlay[path] = re.ReplaceAll(b, []byte(m.To))
+	}
+	ctx, err := core.Load(repo, "quick", overlay)
+	if err != nil {
+		res.Status, res.Detail = "invalid", err.Error()
+		return emit(res)
+	}
+	rep := core.NewReport(args[0])
+	func() {
+		defer func() {
+			if e := recover(); e != nil {
+				rep.Infra("panic", fmt.Sprint(e))
+			}
+		}()
+		prop.Run(ctx, rep)
+	}()
+	rep.CheckFloors()
+	vd := os.Getenv("VERIF_DIR")
+	if vd == "" {
+		vd = "/verif"
+	}
+	ledger, _ := core.LoadLedger(filepath.Join(vd, "known_findings.json"))
+	known := map[string]bool{}
+	for _, e := range ledger {
+		if e.Status == "known" && e.Property == args[0] {
+			known[e.Rule+"|"+e.Construct] = true
+		}
+	}
+	fired := false
+	for _, f := range rep.Findings {
+		if known[f.Key()] {
+			continue
+		}
+		res.FiredBy = append(res.FiredBy, f.Key())
+		if args[1] != "negctl" && strings.Contains(f.Rule, res.Expect) {
+			fired = true
+		}
+	}
+	sort.Strings(res.FiredBy)
+	if len(res.FiredBy) > 6 {
+		res.FiredBy = append(res.FiredBy[:6], fmt.Sprintf("… %d more", len(res.FiredBy)-6))
+	}
+	switch {
+	case args[1] == "negctl" && len(res.FiredBy) == 0:
+		res.Status = "silent"
+	case args[1] == "negctl":
+		res.Status = "alarmed"
+	case fired:
+		res.Status = "killed"
+	default:
+		res.Status = "survived"
+	}
+	return emit(res)
+}
+
+func emit(r mutantResult) int {
+	b, _ := json.Marshal(r)
+	fmt.Println("MUTANT-RESULT " + string(b))
+	return 0
+}
+
+// renameOverlay renames a fixed list of locals with gofmt -r in copies of the module's files.
+var negctlRenames = []string{"coord -> cpt", "subsetGlyphID -> sid", "dpmm -> pxPerMm", "xmin -> lox", "ymax -> hiy", "strokeUnsupported -> noNative", "sinphi -> sphi", "cosphi -> cphi",
+	"zindices -> zs", "copied -> didCopy", "startTheta -> thetaFrom", "i0 -> idx0", "pos0 -> phase0", "states -> segs", "rhsJoinIndex -> rji", "lineCap -> capCode", "lineJoin -> joinCode",
+	"curSeg -> segNo", "objOffset -> off", "dashOffset -> dOff", "tsub -> trel", "pOverlaps -> pTouch", "qOverlaps -> qTouch", "belowFills -> fillsBelow", "aboveFills -> fillsAbove",
+	"lowerWindings -> wLo", "upperOtherWindings -> woHi"}
+
+func renameOverlay(repo string) (map[string][]byte, error) {
+	tmp, err := os.MkdirTemp("", "canvascheck-negctl")
+	if err != nil {
+		return nil, err
+	}
+	defer os.RemoveAll(tmp)
+	overlay := map[string][]byte{}
+	var files []string
+	for _, rel := range modulePkgRels {
+		matches, _ := filepath.Glob(filepath.Join(repo, rel, "*.go"))
+		for _, f := range matches {
+			if strings.HasSuffix(f, "_test.go") {
+				continue
+			}
+			files = append(files, f)
+		}
+	}
+	// copy, rewrite, read back
+	var copies []string
+	for i, f := range files {
+		b, err := os.ReadFile(f)
+		if err != nil {
+			return nil, err
+		}
+		cp := filepath.Join(tmp, fmt.Sprintf("f%03d.go", i))
+		if err := os.WriteFile(cp, b, 0o644); err != nil {
+			return nil, err
+		}
+		copies = append(copies, cp)
+	}
+	for _, r := range negctlRenames {
+		args := append([]string{"-r", r, "-w"}, copies...)
+		if out, err := exec.Command("gofmt", args...).CombinedOutput(); err != nil {
+			return nil, fmt.Errorf("gofmt -r %q: %v: %s", r, err, out)
+		}
+	}
+	for i, f := range files {
+		b, err := os.ReadFile(copies[i])
+		if err != nil {
+			return nil, err
+		}
+		overlay[f] = b
+	}
+	return overlay, nil
+}
+
+// selfValidate runs the property's mutants and the negative control in sub-processes.
+func selfValidate(id string, r *core.Report, extra map[string]any) {
+	exe, err := os.Executable()
+	if err != nil {
+		r.Infra("selfcheck", err.Error())
+		return
+	}
+	jobs := []string{"negctl"}
+	for i := range Mutants[id] {
+		jobs = append(jobs, fmt.Sprint(i))
+	}
+	results := make([]mutantResult, len(jobs))
+	var wg sync.WaitGroup
+	sem := make(chan struct{}, 6)
+	for i, j := range jobs {
+		wg.Add(1)
+		go func(i int, j string) {
+			defer wg.Done()
+			sem <- struct{}{}
+			defer func() { <-sem }()
+			cmd := exec.Command(exe, "mutant", id, j)
+			cmd.Env = os.Environ()
+			out, err := cmd.CombinedOutput()
+			res := mutantResult{Name: "job " + j, Status: "invalid", Detail: "no result line"}
+			for _, line := range strings.Split(string(out), "\n") {
+				if strings.HasPrefix(line, "MUTANT-RESULT ") {
+					json.Unmarshal([]byte(strings.TrimPrefix(line, "MUTANT-RESULT ")), &res)
+				}
+			}
+			if err != nil && res.Detail == "no result line" {
+				res.Detail = err.Error() + ": " + lastLines(string(out), 3)
+			}
+			results[i] = res
+		}(i, j)
+	}
+	wg.Wait()
+	killed, total := 0, 0
+	for _, res := range results {
+		if res.Expect == "(silence)" {
+			if res.Status == "silent" {
+				r.OK("selfcheck.negative-control", id+"|locals renamed", "", "no alarm on a behaviour-preserving renaming of 27 locals")
+			} else {
+				r.Fail("selfcheck.negative-control", id+"|locals renamed", "", fmt.Sprintf("the check alarms (%s) on a copy of the tree in which only local variables were renamed: %v %s", res.Status, res.FiredBy, res.Detail))
+			}
+			continue
+		}
+		total++
+		key := id + "|" + res.Name
+		switch res.Status {
+		case "killed":
+			killed++
+			r.OK("selfcheck.mutant", key, "", "killed by "+strings.Join(res.FiredBy, "; "))
+		case "survived":
+			r.Fail("selfcheck.mutant", key, "", fmt.Sprintf("the rule %s did not fire on a mutant that breaks the clause it decides (fired: %v)", res.Expect, res.FiredBy))
+		default:
+			r.Fail("selfcheck.mutant", key, "", fmt.Sprintf("mutant is %s: %s (the pattern must be refreshed against the current source)", res.Status, res.Detail))
+		}
+	}
+	extra["mutants_total"] = total
+	extra["mutants_killed"] = killed
+	extra["mutants"] = results
+}
+
+func lastLines(s string, n int) string {
+	ls := strings.Split(strings.TrimSpace(s), "\n")
+	if len(ls) > n {
+		ls = ls[len(ls)-n:]
+	}
+	return strings.Join(ls, " | ")
+}
